@@ -79,13 +79,16 @@ def ident(n, m, rng):
 
 def gen_leaf(rng):
     import qutip
-    kind = str(rng.choice(["oper", "oper", "oper", "ket", "bra", "super", "operket", "rect", "scalar"]))
+    kind = str(rng.choice(["oper", "oper", "herm", "herm", "ket", "bra", "super", "operket", "rect", "scalar"]))
     dimsets = [[2], [3], [2, 2], [2, 3], [3, 2], [1, 2], [2, 1], [4], [6]]
     d = dimsets[int(rng.integers(0, len(dimsets)))]
     n = int(np.prod(d))
     fmt = str(rng.choice(["csr", "dense", "dia"]))
     if kind == "oper":
         q = qutip.Qobj(ident(n, n, rng), dims=[d, d])
+    elif kind == "herm":
+        m = ident(n, n, rng)
+        q = qutip.Qobj(m + m.conj().T, dims=[d, d])
     elif kind == "ket":
         q = qutip.Qobj(ident(n, 1, rng), dims=[d, [1] * len(d)])
     elif kind == "bra":
@@ -145,7 +148,7 @@ def apply_real(op, a, b, rng):
         z = complex(int(rng.integers(-2, 3)), int(rng.integers(-2, 3)))
         return (a * z if rng.random() < 0.5 else z * a), z * A, a.dims
     if op == "sdiv":
-        z = [2.0, -4.0, 0.5, 2j][int(rng.integers(0, 4))]
+        z = [2.0, 2j, -2j, 0.5 + 0.5j, -4.0, 0.5j][int(rng.integers(0, 6))]
         return a / z, A / z, a.dims
     if op == "pow":
         k = int(rng.integers(0, 4))
@@ -199,6 +202,10 @@ def run_tree(rng, tier, rep):
         else:
             op = str(rng.choice(UN))
             a, b = pool[int(rng.integers(0, len(pool)))], None
+        if rng.random() < 0.5:
+            a.isherm          # attributes of intermediate objects may have been inspected
+        if rng.random() < 0.15:
+            a.isunitary
         desc = f"{op}({a.type}{a.dims}:{type(a.data).__name__}" + (f", {b.type}{b.dims}:{type(b.data).__name__})" if b is not None else ")")
         log.append(desc)
         rep.count("op=" + op)
@@ -245,6 +252,14 @@ def run_tree(rng, tier, rep):
                 viol.append((f"dims:{op}", f"{desc}: result labelled {res.dims}, composition of the operands' labels is {wdims}", log[-3:]))
         if res.shape != got.shape:
             viol.append((f"shape:{op}", f"{desc}: shape attribute {res.shape} vs data {got.shape}", log[-3:]))
+        # quantities derived from the result must be those of its matrix (trace, diagonal, matrix elements)
+        if got.shape[0] == got.shape[1]:
+            tr = res.tr()
+            if abs(tr - np.trace(got)) > 1e-8 * (1 + abs(np.trace(got))):
+                viol.append((f"trace-after:{op}", f"{desc}: tr() of the result is {tr}, trace of its matrix is {np.trace(got)}", log[-3:]))
+            dg = res.diag()
+            if np.abs(dg - np.diag(got)).max() > 1e-8 * scale:
+                viol.append((f"diag-after:{op}", f"{desc}: diag() of the result differs from the diagonal of its matrix", log[-3:]))
         # type consistent with labels and shape
         t = res.type
         r, c = got.shape
@@ -283,6 +298,19 @@ def run(tier, seed, replay):
     for i in range(0, len(pairs), 3):
         a, b = pairs[i]
         pairs[i] = (a, [a[1], b[1]] if rng.random() < 0.5 else a)
+    # histories: a legal product first, then the same left operand with a right operand whose input labels are the
+    # same but whose output labels are a *relabelling* of the same total size (must be rejected whatever came before)
+    relabel = {6: [[6], [2, 3], [3, 2]], 4: [[4], [2, 2]], 8: [[8], [2, 4], [4, 2], [2, 2, 2]], 12: [[12], [3, 4], [2, 6], [2, 2, 3]]}
+    extra = []
+    for _ in range(nspec // 8):
+        n = int(rng.choice(list(relabel)))
+        labs = relabel[n]
+        X = labs[int(rng.integers(0, len(labs)))]
+        Y = labs[int(rng.integers(0, len(labs)))]
+        Z = gen_space_spec(rng, 2, False)
+        Y2 = labs[int(rng.integers(0, len(labs)))]
+        extra += [([X, Y], [Y, Z]), ([X, Y], [Y2, Z]), ([X, Y], [Y, Z])]
+    pairs += extra
     lines += ["C02.matmul " + json.dumps({"tidy": True, "a": a, "b": b}) for a, b in pairs]
     model = core.run_driver(lines)
     ndis, first = 0, None
@@ -309,6 +337,8 @@ def run(tier, seed, replay):
                 rep.violation(core.Violation("C02:eq", f"Dimensions equality {eq} disagrees with equality of the specifications {da.as_list()} / {db.as_list()}", {"a": a, "b": b}))
             try:
                 c = da @ db
+                if da.as_list()[1] != db.as_list()[0]:
+                    rep.violation(core.Violation("C02:compose-labels", f"Dimensions {a} @ {b} accepted although the input labels {da.as_list()[1]} are not the output labels {db.as_list()[0]} (after earlier products of the same left operand)", {"a": a, "b": b}))
                 mm = {"as_list": c.as_list(), "type": c.type, "shape": [int(c.shape[0]), int(c.shape[1])],
                       "issuper": bool(c.issuper), "superrep": c.superrep, "issquare": bool(c.issquare)}
                 if da.shape[1] != db.shape[0]:
@@ -327,7 +357,7 @@ def run(tier, seed, replay):
     if ndis:
         rep.broken.append({"kind": "correspondence", "which": "C02.dims/matmul", "count": ndis, "first": first})
     # expression trees
-    ntrees = 150 if tier == "quick" else 1500
+    ntrees = 300 if tier == "quick" else 3000
     seen = set()
     for k in range(ntrees):
         trng = np.random.default_rng([seed, k])
